@@ -92,6 +92,9 @@ pub fn replay(ucd: &Ucd, path: &str) -> i32 {
     let property = g("property");
     println!("replaying {} (property {}, kind {})", path, property, g("kind"));
     println!("key: {}", g("key"));
+    if text.contains("\"proc_pair\"") {
+        return crate::checks::c18::replay_proc_pair(&g("proc_pair"));
+    }
     if text.contains("\"schedule\"") || text.contains("\"history\"") {
         return crate::checks::c18::replay(ucd, &text);
     }
